@@ -141,6 +141,53 @@ def h_raman_lumped(ctx, method, order, pumps, positions=(10.0, 25.0)):
             ctx.prove(f'raman_on:{method}:each_lumped_loss_once[{i}]', approx(total, l1 * l2 * base, 1e-9))
 
 
+def h_raman_first_order(ctx):
+    """Raman ON, perturbative order 1, per-frequency loss (every channel its own attenuation), ARBITRARY coupling coefficients
+    (symbolic matrix) and powers: the loss profile at the span end is the first-order solution
+    P_i(L) = P_i(0) exp(-a_i L + sum_j C_ij P_j(0) Leff_j(L)), with the effective length of the SOURCE channel j"""
+    import gnpy.core.science_utils as su
+    from gnpy.core.parameters import SimParams
+    symbolic_ctors(ctx)
+    SimParams.set_params({'raman_params': {'flag': True, 'method': 'perturbative', 'order': 1, 'result_spatial_resolution': 20e3,
+                                           'solver_spatial_resolution': 10e3}, 'nli_params': {'method': 'gn_model_analytic'}})
+    el = {'uid': 'f', 'type': 'Fiber', 'type_variety': 'SSMF',
+          'params': {'length': 40.0, 'length_units': 'km', 'att_in': 0, 'con_in': 0, 'con_out': 0,
+                     'loss_coef': {'value': [0.24, 0.2, 0.19], 'frequency': [191.0e12, 193.5e12, 196.0e12]}}}
+    _, els = build_elements([el])
+    fiber = els['f']
+    k = 2
+    freqs = [191.5e12, 195.5e12]
+    c01 = ctx.real('coupling_0_from_1', lo=-1e-3, hi=1e-3)
+    c10 = ctx.real('coupling_1_from_0', lo=-1e-3, hi=1e-3)
+    cmat = np.empty((k, k), dtype=object)
+    cmat[0, 0], cmat[1, 1], cmat[0, 1], cmat[1, 0] = 0.0, 0.0, c01, c10
+    fiber.cr = lambda frequency: cmat
+    if ctx.mode == 'conc':
+        cmat = cmat.astype(float)
+        fiber.cr = lambda frequency: cmat
+    _alpha = fiber.alpha
+    alpha = np.atleast_1d(np.asarray(_alpha(np.array(freqs)), dtype=float))
+    if ctx.mode == 'sym':
+        fiber.alpha = lambda frequency: np.asarray(_alpha(frequency), dtype=object)    # same values, dtype=object
+    si = make_si(ctx, k, freqs=freqs, spacing=4e12, slot=50e9, noisy=False, pmax=1e-2)
+    pre = snap(si)
+    orig = su.interp1d
+    su.interp1d = _Interp1dExact
+    try:
+        srs = su.RamanSolver.calculate_stimulated_raman_scattering(si, fiber)
+    finally:
+        su.interp1d = orig
+        elems.set_sim_params()
+    L = 40e3
+    leff = [(1 - math.exp(-alpha[j] * L)) / alpha[j] for j in range(k)]
+    for i in range(k):
+        j = 1 - i
+        arg = -alpha[i] * L + cmat[i, j] * pre['p'][j] * leff[j]
+        want = arg.exp() if is_symbolic(arg) else math.exp(arg)
+        ctx.prove(f'first-order loss profile uses the effective length of the source channel [{i}]',
+                  approx(srs.loss_profile[i, -1], want, 1e-9), info=dict(channel=i))
+
+
 def jobs(tier):
     ks = [1, 2, 3] if tier == 'quick' else [1, 2, 3, 4]
     P = ('C05',)
@@ -160,6 +207,7 @@ def jobs(tier):
         # lumped losses off the solver grid (one inside the first solver step): non-uniform integration steps
         js.append(dict(name=f'H5c:raman_on_zero_coupling:{method}:order{order}:offgrid_lumped', fn='h_raman_lumped',
                        params=dict(method=method, order=order, pumps=False, positions=(0.02, 12.5)), cost=20))
+    js.append(dict(name='H5c:raman_on_first_order_per_frequency_loss', fn='h_raman_first_order', cost=30, opts=dict(exp_monotone=True)))
     # accumulated CD / PMD / PDL / latency stay attached to their carrier when a spectrum is (re)built from unsorted pieces
     for via in ('init', 'add'):
         js.append(dict(name=f'H5e:accumulated_values_follow_carrier:{via}:k3', module='harness.c01', fn='h_construct_interleaved',
